@@ -10,8 +10,8 @@
 (* models use t0 = t1 = now (exact clock); traces of the real code carry measured values, so the oracle never depends on how   *)
 (* late the loop is: only "not before lo" (never early), counts, orderings and flags are demanded.                            *)
 (* One loop pass: PassBegin latches the set of ready descriptors (any subset of the watched, armed timers: epoll_wait may      *)
-(* have returned before or after an expiry), Dispatch(i) = FdEvent callback -> TimerFd::onEvent -> read(), a        *)
-(* one-shot is disabled BEFORE the user callback, then the user callback (operations of the callback, CbEnd); a descriptor     *)
+(* have returned before or after an expiry), Dispatch(i) = FdEvent callback -> TimerFd::onEvent -> read(), a one-shot is      *)
+(* disabled BEFORE the user callback, then the user callback (operations of the callback, CbEnd); a descriptor                 *)
 (* latched as ready whose timer has been disabled / re-armed / destroyed meanwhile is skipped (the FdEvent is disabled, and    *)
 (* read() finds no expiration because timerfd_settime() cleared it).  Operations are issued between passes, between the        *)
 (* dispatches of a pass (= from another event's callback of the same pass) and from inside a TimerFd callback, on any timer    *)
